@@ -262,9 +262,11 @@ func VerifH_C04_accum() {
 	g := &Glyph{Name: "x", Width: 0}
 	g.Cmds = append(g.Cmds, GlyphOp{Op: OpMoveTo, Args: []float64{0, 0}})
 	for i := 1; i <= n; i++ {
-		// end point: 10*i + f/2^18 with a solver-chosen fraction 0 <= f < 2^18 (x) and a fixed odd fraction (y)
-		x := float64(10*i) + verifDyadic("fx", 18, 0, 1<<18-1)
-		y := float64(3*i) + verifDyadic("fy", 18, 0, 1<<18-1)
+		// end point: 10*i + f/2^18: the solver chooses the position inside the 16.16 cell (quarter steps, incl.
+		// the tie f = 2) for x; y sits on a fixed tie so that y errors have the same direction in every segment
+		fmax := int64(verifParam("accumfrac", 3))
+		x := float64(10*i) + verifDyadic("fx", 18, 0, fmax)
+		y := float64(3*i) + 2.0/(1<<18)
 		if curves {
 			g.Cmds = append(g.Cmds, GlyphOp{Op: OpCurveTo, Args: []float64{float64(10*i - 7), float64(3*i - 2), float64(10*i - 3), float64(3*i - 1), x, y}})
 		} else {
